@@ -130,4 +130,16 @@ def oneToZero (pos : Int) : Except Panic Int :=
 def zeroToOne (pos : Int) : Int :=
   if pos ≥ 0 then pos + 1 else pos
 
+/-! ### the same over `Int64`: Go's `int` on the 64-bit platforms, `pos--` / `pos++` wrap around
+
+A second, bit-exact model (the one the driver runs): it differs from the unbounded one at exactly one
+argument, `ZeroToOne(math.MaxInt64)`, which wraps to `math.MinInt64`. -/
+
+def oneToZero64 (pos : Int64) : Except Panic Int64 :=
+  if pos = 0 then .error .zeroIndex
+  else if pos > 0 then .ok (pos - 1) else .ok pos
+
+def zeroToOne64 (pos : Int64) : Int64 :=
+  if pos ≥ 0 then pos + 1 else pos
+
 end Biogo.Feat
